@@ -13,6 +13,26 @@ TEXT = {
    text='Every Eq/Ord/ContraMap/From/Monoid entry point is executed on all pairs (and all triples for transitivity) of a pool of boundary and seed-random ints and strings; the oracle is the Go operator or the wrapped function itself, and base instances log their arguments so argument order is observed. Exploration of the input space, exhaustive over the pool.',
    note='Trusts Go\'s ==, < on int/string. Pool size bounds what is seen (40 values quick, 90 thorough per sort).',
    ref='DESIGN.md §6 C17'),
+ 'C01': dict(
+   technique='generated-program workload (struct shapes + optic derivations) + byte-level neighbour monitor in a canary guard with the compiler\'s layout (selectors) as oracle + twin-structure differential; checkptr (quick) and AddressSanitizer (thorough) underneath',
+   text='A seed-driven generator writes Go source: 60 (quick) / 240 (thorough) root struct shapes with up to 12 fields of mixed size and alignment (zero-size, pointers, interfaces, arrays, named types, nested anonymous structs, value embedding to depth 3, embedded named types, tags, duplicate names/types across depths). Every focusable entry is derived by name and by type through ForProduct1..9 / ForSpectrum1..9; each resulting Lens/Reflector runs GetPut/PutGet/PutPut over pairs of pool values inside a heap guard whose every byte is snapshotted around each operation: Get must equal the selector read and write nothing, Put must return its argument, set the field and leave every byte outside [offset,offset+size) of the focus (other fields, padding, both canaries) unchanged; a twin edited through selectors must be DeepEqual. A second allocation mode puts S alone in its heap object for checkptr/ASan.',
+   note='Trusts the Go compiler for layout (selectors, unsafe.Sizeof) and reflect.DeepEqual for focus values. Shapes are those of the grammar in lib/optgen.py.',
+   ref='DESIGN.md §5, §6 C01'),
+ 'C02': dict(
+   technique='generated-program workload + resolution model (first match / must fail) + recover() around every derivation + byte snapshots for wrong dynamic arguments; silently accepted optics are exercised under checkptr/ASan in a guard after the verdict is checkpointed',
+   text='For every generated shape: unknown names, focus types no field has, too few names for K >= 2, names whose field has another type (near misses: same size, named vs underlying, any vs concrete both ways, pointer flips), K-tuples with one bad focus, every entry reached through an embedded pointer (by name and by type when it is the first match), and container type parameters *S, []S, int for ForProduct/ForSpectrum/ForShape/BiMapX must all panic at derivation; a Reflector handed S by value, **S, *Other, nil, an int, unsafe.Pointer or uintptr must panic and leave the bytes of the memory it was handed unchanged.',
+   note='Typed nil *S is not passed (it is a pointer to the container type). Two genuine defects were found and repaired (pointer containers, foci through embedded pointers): see known_findings.json.',
+   ref='DESIGN.md §5, §6 C02'),
+ 'C03': dict(
+   technique='generated-program workload + listing model (declaration order, depth-first, keys from tags) vs hseq output; offsets and types from the compiler through selectors and reflect.TypeOf',
+   text='For every generated shape hseq.New is compared entry by entry with the specified listing (order, key, Name, Type, PureType, ID = position; RootOffs+Offset = real address difference for entries not crossing a pointer); ForName/ForNameMaybe for every key and absent names, ForType for every type and absent types, New(names...) in requested order, New1..9 and FMap1..9 on random K-tuples (entry i to function i), all against first-match resolution or a loud failure.',
+   note='Trusts the listing model in lib/optgen.py (about 20 lines) and the compiler for offsets.',
+   ref='DESIGN.md §5, §6 C03'),
+ 'C04': dict(
+   technique='generated-program workload + byte-level monitor on both structures + twin-structure differential for Join/BiMap/BiMapS,B,I,F/Getter/Setter/ForShape2..9/Iso/Morphism; hand-written map-lens monitor',
+   text='Join through 1-3 levels of nested struct fields, BiMap with inverse conversion pairs, BiMapS/B/I/F by name and by type, Getter (Put changes no byte), Setter (Put writes the converted value, Get is zero), ForShapeK over disjoint foci of mixed types with value tuples, Iso and Morphism over lists with nil and repeated entries between the shape and a padded twin structure (Forward copies exactly the included foci, Inverse restores the source foci, no byte outside the foci of either structure changes), NewLensM touching only its key.',
+   note='For Join the byte-exact region is the outermost intermediate field (value copies may rewrite padding inside it); all other fields are compared through the twin.',
+   ref='DESIGN.md §5, §6 C04'),
  'C05': dict(
    technique='environment-move scheduler in synctest bubbles (real goroutines, virtual time, quiescence) + list-function oracle, user-function call log, consumed-element count; Go race detector on',
    text='Every sequential stage runs inside a testing/synctest bubble under scripts of environment moves: all interleavings of the producer program (sends, close) with the consumer programs for inputs of length 0-2 (quick) / 0-3 (thorough), capacities 0-2 and all Take n, then seed-random scripts (inputs <= 40, capacity <= 8, bursts). After send-rest/close/drain the received sequences must equal the list function, every channel must have closed, the user function must have been called exactly on the consumed elements in order, and Take must not remove more than n elements from its input. Exploration, exhaustive over environment scripts on the small bound; library-internal schedules are sampled.',
@@ -125,6 +145,7 @@ def main():
     print('MANIFEST.json: %d checks, %d not_applicable' % (len(checks), len(na)))
 
 ENGINE_TEXT = {
+ 'optgen': 'engine B: lib/optgen.py generates Go programs (struct shapes, optic derivations, selector oracles); harness/optrt is the byte-level monitor; built with checkptr / ASan',
  'envsched': 'engine A: environment-move scheduler inside testing/synctest bubbles, online/offline monitors, goroutine census, race detector',
  'puremon': 'law monitors with Go operators as oracle',
  'itermon': 'expression-tree interpreter vs real iterator combinators',
